@@ -9,12 +9,26 @@ pub open spec fn parse_u64_spec(s: Seq<char>) -> Option<u64> {
     let body = if s.len() > 0 && s[0] == '+' { s.drop_first() } else { s };
     if all_digits(body) && digits_val(body) <= u64::MAX { Some(digits_val(body) as u64) } else { None }
 }
-pub open spec fn first_dot(s: Seq<char>) -> int decreases s.len() {
-    if s.len() == 0 { -1 } else if s[0] == '.' { 0 } else { let r = first_dot(s.drop_first()); if r < 0 { -1 } else { r + 1 } }
+pub open spec fn first_char(s: Seq<char>, c: char) -> int decreases s.len() {
+    if s.len() == 0 { -1 } else if s[0] == c { 0 } else { let r = first_char(s.drop_first(), c); if r < 0 { -1 } else { r + 1 } }
+}
+pub open spec fn first_dot(s: Seq<char>) -> int { first_char(s, '.') }
+pub proof fn lemma_first_char(s: Seq<char>, c: char)
+    ensures -1 <= first_char(s, c) < s.len(),
+        first_char(s, c) >= 0 ==> s[first_char(s, c)] == c && forall|i: int| 0 <= i < first_char(s, c) ==> s[i] != c,
+        first_char(s, c) < 0 ==> forall|i: int| 0 <= i < s.len() ==> s[i] != c,
+    decreases s.len()
+{
+    if s.len() > 0 && s[0] != c {
+        lemma_first_char(s.drop_first(), c);
+        let r = first_char(s.drop_first(), c);
+        if r >= 0 { assert forall|i: int| 0 <= i < r + 1 implies s[i] != c by { if i > 0 { assert(s.drop_first()[i - 1] == s[i]); } } }
+        else { assert forall|i: int| 0 <= i < s.len() implies s[i] != c by { if i > 0 { assert(s.drop_first()[i - 1] == s[i]); } } }
+    }
 }
 pub uninterp spec fn pat_first<P>(p: P, s: Seq<char>) -> int;
 pub broadcast axiom fn axiom_pat_char(c: char, s: Seq<char>)
-    ensures #[trigger] pat_first::<char>(c, s) == (if c == '.' { first_dot(s) } else { pat_first::<char>(c, s) });
+    ensures #[trigger] pat_first::<char>(c, s) == first_char(s, c);
 pub assume_specification<P: core::str::pattern::Pattern>[ str::split_once::<P> ](s: &str, p: P) -> (r: Option<(&str, &str)>)
     ensures (match r {
         None => pat_first(p, s@) < 0,
